@@ -813,6 +813,11 @@ class Interp:
         self.frame.locals[name] = val
 
     def st_If(self, st):
+        # canonical orientation: `if not c: A else: B` is analysed as `if c: B else: A`
+        if isinstance(st.test, ast.UnaryOp) and isinstance(st.test.op, ast.Not) and st.orelse:
+            sw = ast.If(test=st.test.operand, body=st.orelse, orelse=st.body)
+            ast.copy_location(sw, st)
+            return self.st_If(sw)
         test = self.sym(self.eval(st.test))
         static = self._static_truth(test)
         if static is True:
@@ -1219,6 +1224,10 @@ class Interp:
         return parts[0] if len(parts) == 1 else mk("and", *parts)
 
     def ex_IfExp(self, n):
+        if isinstance(n.test, ast.UnaryOp) and isinstance(n.test.op, ast.Not):
+            sw = ast.IfExp(test=n.test.operand, body=n.orelse, orelse=n.body)
+            ast.copy_location(sw, n)
+            return self.ex_IfExp(sw)
         t = self.sym(self.eval(n.test))
         st = self._static_truth(t)
         if st is True:
